@@ -41,6 +41,8 @@ KE_RTOL = 1e-10
 RULE = ('objects pardim 1-3 (rational or not), orders 1..5, open bases with interior multiplicities 1..p, periodic bases of every '
         'continuity incl. the minimum sizes n = p-1-k .. ; insertion histories of 1-8 values (scalars and lists, several directions): '
         'new values, existing knots up to multiplicity p, periodic seam/end, values periods away, out-of-domain values (error class); '
+        'objects from the raw=True constructor path: one basis instance in all directions (Surface(b,b,raw=True), Volume(b,b,b,raw=True), '
+        'volume_factory.sphere(type=square)) and split pieces refined in another direction on several pieces; '
         'refine(n) / refine(n,direction) / refine(nu,nv,..); geometric (forward and reverse=True) / center / edge refine on open and on '
         'periodic directions with n >= p+k+1; single-basis insert_knot with its matrix. '
         'distinct = distinct protocol lines; non-trivial = at least one value is really inserted.')
@@ -51,7 +53,10 @@ REQUIRED_TAGS = ['kind=basis', 'kind=history', 'kind=refine', 'kind=geometric', 
                  'geometric:reverse@periodic-dir', 'geometric:forward@periodic-dir', 'center@periodic-dir', 'edge@periodic-dir',
                  'geometric:reverse@periodic-dir,pardim=1', 'geometric:reverse@periodic-dir,pardim=2',
                  'geometric:reverse@periodic-dir,pardim=3',
-                 'periodic-cover-branch', 'periodic-end-seam-mult>=2']     # the two repaired paths of periodic insert_knot
+                 'periodic-cover-branch', 'periodic-end-seam-mult>=2',     # the two repaired paths of periodic insert_knot
+                 # objects from the internal raw=True constructor path (bases must not be shared between directions / objects)
+                 'kind=shared', 'shared:insert', 'shared:refine', 'shared:pardim=2', 'shared:pardim=3', 'kind=sphere',
+                 'kind=split', 'split:multi-piece', 'split:insert', 'split:refine']
 
 TOLF = 1e-10
 ASSUMPTIONS = [
@@ -365,7 +370,82 @@ def generate(rng, tier):
         else:
             S = rng.choice([0.5, 1.0, 1.25, 1.5]) if kind == 'center' else rng.choice([0.5, 1.0, 3.0, 10.0])
             specs.append({'kind': kind, 'obj': o, 'S': S, 'n': n, 'dir': d})
+    specs += _aliasing_specs(rng, quick)
     return specs
+
+
+BEZ5 = {'order': 5, 'knots': [0.0] * 5 + [1.0] * 5, 'periodic': -1}     # the basis of volume_factory.sphere(type='square')
+
+
+def _aliasing_specs(rng, quick):
+    """Objects that come out of the library's internal `raw=True` constructor path, where several directions /
+    several objects may hold the SAME BSplineBasis instance: the property must hold for them as for any object.
+    * shared: Surface(b, b, cps, raw=True) / Volume(b, b, b, cps, raw=True) built from ONE instance, then
+      insert_knot / refine in one direction;
+    * sphere: volume_factory.sphere(type='square') (= Volume(b, b, b, ..., raw=True)), insertion in one direction;
+    * split:  obj.split(points, d), then insert_knot / refine in another direction on MORE than one piece."""
+    out = []
+    for i in range(18 if quick else 200):
+        pd = 2 if i % 3 else 3
+        p = rng.randint(2, 4 if pd == 2 else 3)
+        b = gen.open_basis(rng, p, n_interior=rng.randint(0, 2))
+        n = gen.basis_info(b)['n']
+        rational = bool(i % 4 == 1)
+        cps = gen.rand_cps(rng, [n] * pd, 3 + (1 if rational else 0), rational)
+        d = rng.randrange(pd)
+        t = Track(b)
+        if i % 2 == 0:
+            vals = _values_for(rng, b, t, rng.randint(1, 3))
+            out.append({'kind': 'shared', 'basis': b, 'pardim': pd, 'cps': cps, 'rational': rational, 'op': 'insert',
+                        'dir': d, 'knots': vals})
+        else:
+            out.append({'kind': 'shared', 'basis': b, 'pardim': pd, 'cps': cps, 'rational': rational, 'op': 'refine',
+                        'dir': d, 'n': rng.randint(1, 2), 'all': bool(i % 6 == 5)})
+    for i in range(3 if quick else 12):
+        d = i % 3
+        vals = [rng.choice([0.5, 0.25, 0.75, 0.375])] if i < 3 else sorted(rng.sample([0.125, 0.25, 0.5, 0.625, 0.875], 2))
+        out.append({'kind': 'sphere', 'r': rng.choice([1.0, 2.0, 0.5]), 'center': [rng.choice([0.0, 1.0, -2.0]) for _ in range(3)],
+                    'dir': d, 'knots': vals})
+    for i in range(14 if quick else 160):
+        pd = 2 if i % 4 else 3
+        o = _object(rng, pd, periodic_prob=0.25, pmax=3 if pd == 3 else 4, rational=bool(i % 3 == 1))
+        # split direction: non-periodic with at least one admissible split point
+        cands = [q for q in range(pd) if o['bases'][q]['periodic'] < 0]
+        if not cands:
+            continue
+        sd = rng.choice(cands)
+        tb = Track(o['bases'][sd])
+        at = sorted(set(_new_value(rng, o['bases'][sd], tb) for _ in range(rng.randint(1, 2))))
+        npieces = len(at) + 1
+        d2 = rng.choice([q for q in range(pd) if q != sd])
+        t2 = Track(o['bases'][d2])
+        steps = []
+        for piece in rng.sample(range(npieces), rng.randint(2, npieces)):
+            if rng.random() < 0.65:
+                vals = _values_for(rng, o['bases'][d2], Track(o['bases'][d2]), rng.randint(1, 2))
+                steps.append({'piece': piece, 'op': 'insert', 'dir': d2, 'knots': vals})
+            else:
+                steps.append({'piece': piece, 'op': 'refine', 'dir': d2, 'n': 1})
+        out.append({'kind': 'split', 'obj': o, 'sdir': sd, 'at': at, 'steps': steps})
+    return out
+
+
+def _as_plain(s):
+    """The ordinary (alias-free) spec whose correspondence the new kinds reuse."""
+    k = s['kind']
+    if k == 'shared':
+        o = {'bases': [s['basis']] * s['pardim'], 'cps': s['cps'], 'rational': s['rational']}
+        if s['op'] == 'insert':
+            return {'kind': 'history', 'obj': o, 'steps': [{'dir': s['dir'], 'knots': s['knots'], 'scalar': False}]}
+        return {'kind': 'refine', 'obj': o, 'ns': [s['n']], 'direction': None if s['all'] else s['dir']}
+    if k == 'sphere':
+        return {'kind': 'basis', 'basis': BEZ5, 'x': s['knots'][0]}
+    if k == 'split':
+        # the insertions of the steps applied to the unsplit object (refine steps are oracle-only)
+        return {'kind': 'history', 'obj': s['obj'],
+                'steps': [{'dir': st['dir'], 'knots': st['knots'], 'scalar': False} for st in s['steps'] if st['op'] == 'insert']
+                or [{'dir': s['steps'][0]['dir'], 'knots': [], 'scalar': False}]}
+    return s
 
 
 # ----------------------------------------------------------------------------------------------
@@ -409,6 +489,7 @@ def _knot_spans(b):
 
 
 def model_line(s):
+    s = _as_plain(s)
     k = s['kind']
     if k == 'basis':
         return line('c04_basis_insert', gen.enc_basis(s['basis']), s['x'])
@@ -458,7 +539,28 @@ def _apply(sp, s):
     return o
 
 
+def _shared_object(sp, s):
+    """Surface / Volume whose directions all hold ONE BSplineBasis instance, through the raw constructor path."""
+    b = gen.mk_basis(sp, s['basis'])
+    cls = {2: sp.Surface, 3: sp.Volume}[s['pardim']]
+    return cls(*([b] * s['pardim']), np.array(s['cps'], dtype=float), s['rational'], raw=True)
+
+
+def _apply_shared(sp, s, obj):
+    if s['op'] == 'insert':
+        obj.insert_knot(list(s['knots']), s['dir'])
+    elif s['all']:
+        obj.refine(s['n'])
+    else:
+        obj.refine(s['n'], direction=s['dir'])
+    return obj
+
+
 def run_impl(sp, s):
+    if s['kind'] == 'shared':
+        with np.errstate(all='ignore'):
+            return gen.obj_observables(_apply_shared(sp, s, _shared_object(sp, s)))
+    s = _as_plain(s)
     with np.errstate(all='ignore'):
         r = _apply(sp, s)
     if s['kind'] == 'basis':
@@ -484,6 +586,7 @@ def _diff_obj(iv, mv):
 
 
 def compare(s, iv, mv):
+    s = _as_plain(s)
     if s['kind'] == 'basis':
         if isinstance(iv, Err) or not isinstance(mv, list):
             return diff(iv, mv, RTOL, ATOL)
@@ -645,8 +748,156 @@ def _obj_quantified(o):
     return True
 
 
+def _grid_fails(o_spec, obj, what, fr=(0.1, 0.4, 0.7, 0.95)):
+    """Real evaluation of `obj` on a tensor grid strictly inside ITS OWN domain versus the exact definition on
+    the ORIGINAL spec (pieces of a split cover a part of the original domain)."""
+    pd = len(o_spec['bases'])
+    try:
+        with np.errstate(all='ignore'):
+            params = [[float(obj.start(q)) + (float(obj.end(q)) - float(obj.start(q))) * f for f in (fr if pd < 3 else fr[::2] + fr[-1:])]
+                      for q in range(pd)]
+            vals = np.asarray(obj.evaluate(*params))
+    except Exception as ex:  # noqa: BLE001 - an exception here IS a failure of the property on this input
+        return ['%s: evaluation raised %s: %s' % (what, type(ex).__name__, str(ex)[:100])]
+    vals = vals.reshape(tuple(len(q) for q in params) + (-1,))
+    import itertools
+    bad = 0
+    first = None
+    for idx in itertools.product(*[range(len(q)) for q in params]):
+        u = [params[q][idx[q]] for q in range(pd)]
+        want = exact.nurbs_point(o_spec, u)
+        if not exact.close(vals[idx], want, RTOL, 1e-10):
+            bad += 1
+            if first is None:
+                first = '%s: geometry changed at %r: %r, the original map gives %r' % (what, u, vals[idx].tolist(), [float(x) for x in want])
+    return ([first] if first else []) + (['%s: %d grid points differ' % (what, bad)] if bad > 1 else [])
+
+
+def _structure_fails(sp, obj, what):
+    fails = []
+    shape = np.asarray(obj.controlpoints).shape
+    for q, b in enumerate(obj.bases):
+        if b.num_functions() != shape[q]:
+            fails.append('%s: invalid object: basis %d has %d functions but the control net has %d points there' % (
+                what, q, b.num_functions(), shape[q]))
+    return fails or _valid_fails(sp, obj, what)
+
+
+def _oracle_shared(sp, s):
+    """(1) one BSplineBasis instance in every direction (raw constructor path), insertion / refine in one direction."""
+    pd = s['pardim']
+    o_spec = {'bases': [s['basis']] * pd, 'cps': s['cps'], 'rational': s['rational']}
+    try:
+        obj = _shared_object(sp, s)
+        with np.errstate(all='ignore'):
+            _apply_shared(sp, s, obj)
+    except Exception as ex:  # noqa: BLE001
+        return ['%s on an object built from one basis instance raised %s: %s' % (s['op'], type(ex).__name__, str(ex)[:120])]
+    fails = []
+    touched = list(range(pd)) if (s['op'] == 'refine' and s['all']) else [s['dir']]
+    old_shape = np.array(s['cps']).shape
+    new_shape = np.asarray(obj.controlpoints).shape
+    for q in range(pd):
+        nb = gen.spec_of_basis(obj.bases[q])
+        if q in touched:
+            ins = list(s['knots']) if s['op'] == 'insert' else None
+            fails += _knot_fails(s['basis'], nb, ins, 'direction %d' % q)
+            grown = len(nb['knots']) - len(s['basis']['knots'])
+            if new_shape[q] != old_shape[q] + grown or (ins is not None and grown != len(ins)):
+                fails.append('direction %d: %d control points for %d new knots (before %d)' % (q, new_shape[q], grown, old_shape[q]))
+        else:
+            if len(nb['knots']) != len(s['basis']['knots']) or any(abs(x - y) > 1e-12 for x, y in zip(nb['knots'], s['basis']['knots'])):
+                fails.append('direction %d was not refined but its knot vector changed: %r (was %r)' % (q, nb['knots'], s['basis']['knots']))
+            if new_shape[q] != old_shape[q]:
+                fails.append('direction %d was not refined but has %d control points (before %d)' % (q, new_shape[q], old_shape[q]))
+    fails += _structure_fails(sp, obj, 'result')
+    if not fails:
+        fails += _geometry_fails(sp, o_spec, obj, touched)
+    fails += _grid_fails(o_spec, obj, 'result')
+    return fails
+
+
+def _oracle_sphere(sp, s):
+    """(1b) volume_factory.sphere(type='square') = Volume(b, b, b, ..., raw=True): insertion in one direction."""
+    import importlib
+    vf = importlib.import_module(sp.__name__ + '.volume_factory')
+    try:
+        ball = vf.sphere(s['r'], s['center'], type='square')
+        o_spec = gen.spec_of_object(ball)            # the map BEFORE: the factory's own knots / control points
+        old = [gen.spec_of_basis(b) for b in ball.bases]
+        old_shape = np.asarray(ball.controlpoints).shape
+        with np.errstate(all='ignore'):
+            ball.insert_knot(list(s['knots']), s['dir'])
+    except Exception as ex:  # noqa: BLE001
+        return ['insert_knot on sphere(type=square) raised %s: %s' % (type(ex).__name__, str(ex)[:120])]
+    fails = []
+    new_shape = np.asarray(ball.controlpoints).shape
+    for q in range(3):
+        nb = gen.spec_of_basis(ball.bases[q])
+        fails += _knot_fails(old[q], nb, list(s['knots']) if q == s['dir'] else [], 'sphere direction %d' % q)
+        want = old_shape[q] + (len(s['knots']) if q == s['dir'] else 0)
+        if new_shape[q] != want:
+            fails.append('sphere direction %d: %d control points, expected %d' % (q, new_shape[q], want))
+    fails += _structure_fails(sp, ball, 'sphere')
+    fails += _grid_fails(o_spec, ball, 'sphere', fr=(0.15, 0.5, 0.85))
+    return fails
+
+
+def _oracle_split(sp, s):
+    """(2) split in direction sdir, then insert / refine in another direction on more than one piece: after every
+    step EVERY piece must still be valid and evaluate to the original map on its part of the domain."""
+    o = s['obj']
+    if not _obj_quantified(o):
+        return []
+    try:
+        obj = gen.mk_object(sp, o)
+        pieces = obj.split(list(s['at']), s['sdir'])
+    except Exception as ex:  # noqa: BLE001
+        return ['split raised %s: %s' % (type(ex).__name__, str(ex)[:120])]
+    if not isinstance(pieces, (list, tuple)) or len(pieces) != len(s['at']) + 1:
+        return []          # not the situation of this experiment (C07 owns split itself)
+    fails = []
+    for i, pc in enumerate(pieces):
+        fails += _structure_fails(sp, pc, 'piece %d after split' % i) + _grid_fails(o, pc, 'piece %d after split' % i)
+    if fails:
+        return []          # the split itself is off: C07's subject, not this experiment
+    knots = [[gen.spec_of_basis(b) for b in pc.bases] for pc in pieces]
+    pd = len(o['bases'])
+    for n, st in enumerate(s['steps']):
+        i, d2 = st['piece'], st['dir']
+        what = 'step %d (%s piece %d, direction %d)' % (n, st['op'], i, d2)
+        try:
+            with np.errstate(all='ignore'):
+                if st['op'] == 'insert':
+                    pieces[i].insert_knot(list(st['knots']), d2)
+                else:
+                    pieces[i].refine(st['n'], direction=d2)
+        except Exception as ex:  # noqa: BLE001
+            fails.append('%s raised %s: %s' % (what, type(ex).__name__, str(ex)[:120]))
+            break
+        for j, pc in enumerate(pieces):
+            for q in range(pd):
+                nb = gen.spec_of_basis(pc.bases[q])
+                if j == i and q == d2:
+                    fails += _knot_fails(knots[j][q], nb, list(st['knots']) if st['op'] == 'insert' else None, '%s: piece %d direction %d' % (what, j, q))
+                elif len(nb['knots']) != len(knots[j][q]['knots']) or any(abs(x - y) > 1e-12 for x, y in zip(nb['knots'], knots[j][q]['knots'])):
+                    fails.append('%s: knot vector of piece %d direction %d changed although it was not refined' % (what, j, q))
+                knots[j][q] = nb
+            fails += _structure_fails(sp, pc, '%s: piece %d' % (what, j))
+            fails += _grid_fails(o, pc, '%s: piece %d' % (what, j))
+        if fails:
+            break
+    return fails
+
+
 def oracle(sp, s):
     k = s['kind']
+    if k == 'shared':
+        return _oracle_shared(sp, s)
+    if k == 'sphere':
+        return _oracle_sphere(sp, s)
+    if k == 'split':
+        return _oracle_split(sp, s)
     if k == 'basis':
         b = s['basis']
         t = Track(b)
@@ -783,6 +1034,21 @@ def classify(s, res=None):
 
 
 def tags(s, res):
+    if s['kind'] in ('shared', 'sphere', 'split'):
+        k = s['kind']
+        out = ['kind=' + k, 'aliasing']
+        if k == 'shared':
+            out += ['shared:' + s['op'], 'shared:pardim=%d' % s['pardim']] + (['rational'] if s['rational'] else [])
+        elif k == 'sphere':
+            out += ['sphere:dir=%d' % s['dir'], 'rational']
+        else:
+            out += ['split:pieces-touched=%d' % len({st['piece'] for st in s['steps']}), 'split:pardim=%d' % len(s['obj']['bases'])]
+            out += sorted({'split:' + st['op'] for st in s['steps']})
+            if len({st['piece'] for st in s['steps']}) >= 2:
+                out.append('split:multi-piece')
+        if isinstance(res.get('impl'), Err):
+            out.append('raises=' + res['impl'].kind)
+        return out
     k = s['kind']
     out = ['kind=' + k]
     if k == 'basis':
@@ -866,6 +1132,7 @@ def tags(s, res):
 def nontrivial(s, res):
     if isinstance(res.get('impl'), Err):
         return False
+    s = _as_plain(s)
     if s['kind'] == 'refine':
         return any(n > 0 for n in s['ns'])
     return True
